@@ -469,8 +469,7 @@ def step (c : Cfg) (s : State) (t k : Nat) : State × List Ev × Outcome :=
   else stepPc c { s with lockWait := upd s.lockWait t false } t k
 
 /-- can thread `t` make a step? -/
-def enabled (s : State) (t : Nat) : Bool :=
-  if (s.pc t).wantsLock && s.lockWait t then s.mx.isNone else
+def enabledPc (s : State) (t : Nat) : Bool :=
   match s.pc t with
   | Pc.done => false
   | Pc.stuck => false
@@ -481,6 +480,9 @@ def enabled (s : State) (t : Nat) : Bool :=
       | u :: _ => s.pc u == Pc.done
       | [] => true
   | _ => true
+
+def enabled (s : State) (t : Nat) : Bool :=
+  if (s.pc t).wantsLock && s.lockWait t then s.mx.isNone else enabledPc s t
 
 /-- a scheduled step: thread `t` moves if it is enabled; `k` picks the waiter a `notify_one` wakes -/
 def sstep (c : Cfg) (s : State) (tk : Nat × Nat) : State :=
